@@ -118,7 +118,27 @@ func runNODEURLPREFIX(c *Ctx) {
 		st, _ := b.named.Underlying().(*types.Struct)
 		// location fields: string fields of the receiver read by Load or Store
 		loc := map[string]bool{}
-		for _, fn := range []*ssa.Function{b.load, b.store} {
+		// Load, Store and the receiver's own helper methods they call (objectKey(name), nodePath(name) …)
+		addrFns := []*ssa.Function{b.load, b.store}
+		seenFn := map[*ssa.Function]bool{b.load: true, b.store: true}
+		for i := 0; i < len(addrFns) && i < 16; i++ {
+			for _, ci := range CallsOf(addrFns[i]) {
+				h := ir.Callee(ci.Common())
+				if h == nil || seenFn[h] || h.Blocks == nil || h.Signature.Recv() == nil || h.Pkg != addrFns[i].Pkg {
+					continue
+				}
+				rt := h.Signature.Recv().Type()
+				if p, ok := rt.Underlying().(*types.Pointer); ok {
+					rt = p.Elem()
+				}
+				if !types.Identical(rt, b.named) {
+					continue
+				}
+				seenFn[h] = true
+				addrFns = append(addrFns, h)
+			}
+		}
+		for _, fn := range addrFns {
 			ri := newRecvInfo(fn)
 			for _, blk := range fn.Blocks {
 				for _, ins := range blk.Instrs {
